@@ -289,6 +289,15 @@ impl<'a> ValGen<'a> {
                 _ => self.free(3, false),
             },
             Ty::Vector => {
+                // a declared Vector is one leaf whatever its width: embedding-sized and
+                // budget-sized widths (the array-length and node limits of UNdeclared shapes are
+                // 4096 and 16384) must be written and read back like a short one
+                if self.ch.chance(1, 10) {
+                    let n = [768usize, 1536, 4095, 4096, 4097, 5000, 16383, 16384, 16385][self.ch.pick(9)];
+                    let a = BF16_POOL[self.ch.pick(BF16_POOL.len())];
+                    let b = self.ch.next();
+                    return Fv::Vector((0..n).map(|i| bf16::from_bits(if i % 7 == 3 { b } else { a })).collect());
+                }
                 let bits = self.bits();
                 if self.ch.chance(1, 3) {
                     Fv::Array(bits.into_iter().map(|b| Fv::U64(b as u64)).collect())
